@@ -223,6 +223,7 @@ func (rs *ResourceSubscription) handleEventChange(r *ResourceEvent) bool {
 	r.Update = true
 	rs.model = &Model{Values: m}
 	rs.version++
+	r.Model = rs.model
 	return true
 }
 
@@ -259,6 +260,7 @@ func (rs *ResourceSubscription) handleEventAdd(r *ResourceEvent) bool {
 	r.Idx = params.Idx
 	r.Value = params.Value
 	r.Update = true
+	r.Collection = rs.collection
 
 	return true
 }
@@ -294,6 +296,7 @@ func (rs *ResourceSubscription) handleEventRemove(r *ResourceEvent) bool {
 	rs.version++
 	r.Idx = params.Idx
 	r.Update = true
+	r.Collection = rs.collection
 
 	return true
 }
